@@ -207,6 +207,7 @@ fn main() {
             "rt" => roundtrip_case(&p[1], &p[2]),
             "st" => subtype_case(&p[1]),
             "deep" => deep_case(p[1].parse().unwrap(), p[2].parse().unwrap()),
+            "dval" => deep_value_case(&p[1], p[2].parse().unwrap(), p[3].parse().unwrap()),
             "co" => coerce_case(&p[1], &p[2], if p.len() > 3 { &p[3] } else { "" }),
             "nt" => native_case(p[1].parse().unwrap(), &p[2]),
             "tc" => typecheck_case(&p[1]),
@@ -295,6 +296,12 @@ mod nat_ty {
     pub enum V3 { N(Option<V1>), S { list: Vec<u8>, t: (u8, u8) } }
     #[derive(CandidType, Deserialize, Debug, PartialEq, Clone)]
     pub struct R3<'a> { #[serde(borrow)] pub data: Option<&'a [u8]>, pub n: u8 }
+    #[derive(CandidType, Deserialize, Debug, PartialEq, Clone)]
+    pub struct Millis(pub u64);
+    #[derive(CandidType, Deserialize, Debug, PartialEq, Clone)]
+    pub struct Flag(pub bool);
+    #[derive(CandidType, Deserialize, Debug, PartialEq, Clone)]
+    pub struct Wrap2(pub Millis);
 }
 
 fn native_case(k: usize, hexmsg: &str) -> String {
@@ -346,6 +353,10 @@ fn native_case(k: usize, hexmsg: &str) -> String {
         38 => one!(std::time::Duration),
         39 => one!((u8, String, bool)),
         40 => one!(std::collections::HashMap<u8, u8>),
+        41 => one!(Vec<Millis>),
+        42 => one!(Vec<Flag>),
+        43 => one!([Millis; 2]),
+        44 => one!(Vec<Wrap2>),
         _ => "bad".to_string(),
     }
 }
@@ -444,6 +455,23 @@ fn history_case(perm: &str) -> String {
                 'A' => rt!(a::Node { x: 1, next: Some(Box::new(a::Node { x: 2, next: None })) }, a::Node),
                 'B' => rt!(b::Node { y: "r".into(), kids: vec![b::Node { y: "k".into(), kids: vec![] }] }, b::Node),
                 'P' => rt!((a::Node { x: 3, next: None }, b::Node { y: "p".into(), kids: vec![] }), (a::Node, b::Node)),
+                'Q' => {
+                    // two LOCAL types of the same name (same module path, same type_name) in different blocks: both messages are
+                    // encoded before either is decoded, then both in one message
+                    type Dec = fn(&[u8]) -> candid::Result<bool>;
+                    let (b1, d1): (Vec<u8>, Dec) = {
+                        #[derive(candid::CandidType, candid::Deserialize, Debug, PartialEq, Clone)] struct Rec { a: u8 }
+                        (candid::encode_one(Rec { a: 1 }).unwrap(), |b| candid::decode_one::<Rec>(b).map(|r| r == Rec { a: 1 }))
+                    };
+                    let (b2, d2): (Vec<u8>, Dec) = {
+                        #[derive(candid::CandidType, candid::Deserialize, Debug, PartialEq, Clone)] struct Rec { b: String, c: Vec<u16> }
+                        (candid::encode_one(Rec { b: "x".into(), c: vec![7] }).unwrap(), |b| candid::decode_one::<Rec>(b).map(|r| r == Rec { b: "x".into(), c: vec![7] }))
+                    };
+                    match (d1(&b1), d2(&b2), d1(&b1)) {
+                        (Ok(true), Ok(true), Ok(true)) => format!("{}:{}{}", c, hexe(&b1), hexe(&b2)),
+                        other => format!("{}:DIFF {}", c, format!("{:?}", other).replace('\n', " ").chars().take(120).collect::<String>()),
+                    }
+                }
                 'y' => { let _ = <Tree as candid::CandidType>::ty(); format!("{}:ty", c) }     // type derivation only
                 'z' => { let _ = <Kids as candid::CandidType>::ty(); format!("{}:ty", c) }
                 _ => format!("{}:?", c),
@@ -635,6 +663,46 @@ fn refdecode_short(hexmsg: &str, defs: &str, ty: &str) -> String {
         Ok(_) => "ok".to_string(),
         Err(_) => "err".to_string(),
     }
+}
+
+// ---------------------------------------------------------------- deeply nested VALUES on threads with little stack
+// kind "opt": untyped decoding of `type T = opt T` nested `depth` times; kind "list": native decoding of a `depth`-long List.
+// Whatever the stack size, decoding must return (the recursion guard looks at the stack that is left), not overflow it.
+fn deep_value_case(kind: &str, depth: usize, stack_kb: usize) -> String {
+    let bytes: Vec<u8> = if kind == "opt" {
+        let mut m = b"DIDL\x01\x6e\x00\x01\x00".to_vec();
+        m.extend(std::iter::repeat(1u8).take(depth));
+        m.push(0);
+        m
+    } else {
+        use candid::Encode;
+        use nat_ty::List;
+        let one = Encode!(&List { head: 1, tail: None }).unwrap();
+        let (hdr, cell) = one.split_at(one.len() - 2);
+        let mut m = hdr.to_vec();
+        if cell == [1, 0] {
+            // fields in the order head, tail: every cell is `head, tag` and the next cell follows
+            for _ in 0..depth { m.extend([1u8, 1u8]); }
+            m.extend([1u8, 0u8]);
+        } else {
+            // fields in the order tail, head: all the tags first, then the heads on the way back
+            m.extend(std::iter::repeat(1u8).take(depth));
+            m.push(0);
+            m.extend(std::iter::repeat(1u8).take(depth + 1));
+        }
+        m
+    };
+    let kind = kind.to_string();
+    let h = std::thread::Builder::new().stack_size(stack_kb * 1024).spawn(move || {
+        if kind == "opt" {
+            candid::IDLArgs::from_bytes(&bytes).map(|_| ()).map_err(|_| ())
+        } else {
+            use candid::Decode;
+            let r = Decode!(&bytes, nat_ty::List);
+            match r { Ok(v) => { std::mem::forget(v); Ok(()) } Err(_) => Err(()) }
+        }
+    }).unwrap();
+    match h.join() { Ok(Ok(())) => "ok".to_string(), Ok(Err(())) => "err".to_string(), Err(_) => "panic".to_string() }
 }
 
 // ---------------------------------------------------------------- deep reference types near the end of the stack
